@@ -1,2 +1,31 @@
-(* C12 -- placeholder *)
-From NV Require Import Model.Nucleo.
+(* C12 -- Restart isolates the new item stream from the old one.
+   Statements in Spec/NucleoStatements.v, proofs in Proofs/NucleoFacts.v.  Quantification: every history
+   of the protocol model (restarts interleaved with ticks that time out or complete, runs at any stage,
+   repeated restarts, injectors of old streams that keep pushing).
+     C12_restart          restart(true) empties the snapshot at once and re-targets it to the fresh stream;
+                          restart(false) leaves it exactly as it was; the new stream id is fresh;
+     C12_snapshot_stable  nothing but a tick (or restart(true)) ever changes the snapshot - in particular
+                          no injector activity on any stream, old or new;
+     C12_pickup_current   when a tick installs a new snapshot it is one of the CURRENT stream;
+     C12_no_mix           every index in the snapshot is an initialised item of the snapshot's own stream
+                          (never an index computed against another stream), so the two streams are never
+                          mixed and the snapshot stays safe to read. *)
+From Coq Require Import NArith List Bool.
+From NV Require Import Model.Nucleo Spec.NucleoStatements Proofs.NucleoFacts.
+Import Nucleo.
+Import ListNotations.
+Local Open Scope N_scope.
+
+Theorem C12_restart : forall sc ln, C12_restart_stmt sc ln.
+Proof. exact NucleoFacts.C12_restart. Qed.
+Theorem C12_snapshot_stable : forall sc ln, C12_snapshot_stable_stmt sc ln.
+Proof. exact NucleoFacts.C12_snapshot_stable. Qed.
+Theorem C12_pickup_current : forall sc ln, C12_pickup_current_stmt sc ln.
+Proof. exact NucleoFacts.C12_pickup_current. Qed.
+Theorem C12_no_mix : forall sc ln, C12_no_mix_stmt sc ln.
+Proof. exact NucleoFacts.C12_no_mix. Qed.
+
+Print Assumptions C12_restart.
+Print Assumptions C12_snapshot_stable.
+Print Assumptions C12_pickup_current.
+Print Assumptions C12_no_mix.
